@@ -551,7 +551,6 @@ func c14Faulted(env *fw.Env, idx int) fw.Result {
 	}
 	n := base.be.calls
 	kinds := append([]string{}, base.be.kinds...)
-	baseCount := countCalls(base.be.log)
 	res.Obs = map[string]int64{}
 	for i := 1; i <= n; i++ {
 		br := runBuild(&w, dir, buildOpts{Faults: []fault{{At: i, Mode: "error"}}, Limit: 4*n + 20})
@@ -563,29 +562,10 @@ func c14Faulted(env *fw.Env, idx int) fw.Result {
 		res.Obs["faulted_builds"]++
 		res.Obs["events_recorded"] += int64(len(br.be.log))
 		if br.be.aborted {
-			res.Verdict, res.Finding = fw.Violated, "non-termination-under-fault"
-			res.Msg = fmt.Sprintf("callback %d (%s) failed; the build then made more than %d callbacks although the fault-free build needs %d: it does not terminate", i, kinds[i-1], 4*n+20, n)
-			return res
-		}
-		// a failure elsewhere is no reason to do any other piece of work more
-		// often than the fault-free build does it (the failed call itself
-		// may be retried)
-		failedKey := ""
-		seen := 0
-		for _, e := range br.be.log {
-			if e.Kind == "fetch" || e.Kind == "versions" || e.Kind == "sourceaddr" || e.Kind == "find" {
-				seen++
-				if seen == i {
-					failedKey = e.Kind + "|" + e.Key
-				}
-			}
-		}
-		for k, cnt := range countCalls(br.be.log) {
-			if k != failedKey && cnt > baseCount[k] {
-				res.Verdict, res.Finding = fw.Violated, "repeated-work-under-fault"
-				res.Msg = fmt.Sprintf("callback %d (%s) failed; %s then ran %d time(s), the fault-free build runs it %d time(s)", i, kinds[i-1], k, cnt, baseCount[k])
-				return res
-			}
+			// a build that does not end after a failure is C12's business
+			// (the failure is never reported); no trace verdict here
+			res.Obs["faulted_builds_cut_off"]++
+			continue
 		}
 		if _, msg, finding := c14Brackets(br.be.log, false); msg != "" {
 			res.Verdict, res.Finding = fw.Violated, finding+"-under-fault"
@@ -594,18 +574,6 @@ func c14Faulted(env *fw.Env, idx int) fw.Result {
 		}
 	}
 	return res
-}
-
-// countCalls counts the callback invocations of a log per kind and key.
-func countCalls(log []evt) map[string]int {
-	m := map[string]int{}
-	for _, e := range log {
-		switch e.Kind {
-		case "fetch", "versions", "sourceaddr", "find":
-			m[e.Kind+"|"+e.Key]++
-		}
-	}
-	return m
 }
 
 // c14Hang: for C14 a build that never returns is a violation ("always terminates").
